@@ -15,7 +15,8 @@ TITLE = 'Malformed input is reported, not crashed on'
 LEVEL = 'fault_enumeration'
 TECHNIQUE = ('fault injection: systematic syntactic corruptions (truncation at every byte, deletion/duplication of every '
              'delimiter byte, bracket/tag unbalancing, byte flips) of valid documents, filtered by an independent parser '
-             'of the format, fed to main() as first or second file')
+             'of the format, fed to main() as first or second file, on standard input, under other extensions and option vectors; '
+             'documents up to 200 KiB')
 RULE = ("Cases: a valid document of a text format (JSON, JSON5, YAML, XML, HTML, plist; ASCII-only and non-ASCII "
         "variants) serialised deterministically, one corruption {truncate at byte i | delete byte i | duplicate byte i "
         "(delimiter bytes {}[]:,\"<>/=&; newline, space) | replace byte i by an unbalancing bracket/tag character | flip "
